@@ -133,6 +133,26 @@ CHECKS = {
              "the statement exactly (no tolerance: all arithmetic is exact on the grid). A full parameter grid x 3 canonical "
              "histories is enumerated as well.",
         note="Handler time is zero on the virtual clock; real-time behaviour of the OS selector is outside this check (see C18)."),
+    "C16": dict(
+        category="exploration", design_ref="DESIGN.md section 3 / C16",
+        technique="property-based testing of outcome sequences against the closed-form back-off delay, with scripted (model) and real-client drivers",
+        text="Hypothesis draws min/max waits, sequences of up to 40 connection outcomes, the uniform draws (served through "
+             "lomond.persist.random, incl. 0 and 1-2^-53) and the back-off at which the exit event fires; persist() is driven over "
+             "a duck-typed websocket replaying scripted event objects and over the real WebSocket on the simulated transport. "
+             "Checked: pass-through of every event object in order, exactly one BackOff per attempt, connect() arguments, the "
+             "exact delay min_wait + u*min(max_wait-min_wait, 2^k) and its bounds, one exit_event.wait(delay) per BackOff, ending "
+             "exactly when wait returns True. All 3^5 outcome sequences x 5 wait settings are enumerated.",
+        note="No real sleeping: the exit event and the uniform source are harness objects; 'forever' is observed up to a horizon of 40 attempts."),
+    "C17": dict(
+        category="exploration", design_ref="DESIGN.md section 3 / C17",
+        technique="metamorphic property-based testing: reused object vs fresh object must give identical traces for the same server behaviour",
+        text="A chain of 1-4 previous connections with abnormal endings (12 kinds: cuts at drawn offsets, unfinished fragmented text "
+             "with half a character, mid-compressed-message with context takeover, closing, rejected, oversize reply, connect "
+             "failure, protocol error, armed timers, abandonment) is followed by a connection B on the same WebSocket object; B's "
+             "normalised trace (events, payloads, relative virtual times, unmasked client frames, request) must equal the trace of "
+             "B on a fresh object, and each request must carry the key drawn for that connect. Every abnormal ending x 4 cut "
+             "positions x compression on/off x 2 canonical B's is enumerated.",
+        note="The previous generator is finalised before the next connect(), as persist() does."),
 }
 
 PENDING = {}
